@@ -25,7 +25,7 @@ From Coq Require Import NArith ZArith List Bool Arith.
 From Pq Require Import Base.Bytes Base.ListX Codec.Hybrid Thrift.Compact Format.Phys Format.Meta Format.Page
   Format.ChunkLayout Format.File Format.Enc
   Impl.RPages Proofs.HybridProofs Proofs.FormatCodecProofs Proofs.FormatPageProofs Proofs.FormatChunkProofs Proofs.RPagesProofs
-  Proofs.FormatFileProofs Impl.RChunk Proofs.RChunkProofs.
+  Proofs.FormatFileProofs Impl.RChunk Proofs.RChunkProofs Proofs.RefuseProofs.
 Import ListNotations.
 Open Scope list_scope.
 Open Scope N_scope.
@@ -149,6 +149,15 @@ Theorem C03_selfmade_shortcut_on_foreign_page_refuted :
      <> ROk [Some (VNum 20); Some (VNum 20); Some (VNum 20)].
 Proof. repeat split; try (vm_compute; reflexivity). vm_compute. discriminate. Qed.
 Print Assumptions C03_selfmade_shortcut_on_foreign_page_refuted.
+
+(* C03_unsupported_refused on the impl models: for a value encoding outside the ones the reader implements
+   (DELTA_LENGTH_BYTE_ARRAY 6, DELTA_BYTE_ARRAY 7, BYTE_STREAM_SPLIT 9, BIT_PACKED 4, anything unknown) neither
+   page reader ever returns values, whatever the bytes *)
+Theorem C03_unsupported_refused : forall selfmade cd h raw r decompress inplace dic codec h2 us cs payload r2,
+  (supported_enc (d_enc h) = false -> rd_data_page selfmade cd h raw <> ROk r) /\
+  (supported_enc (d2_enc h2) = false -> rd_page_v2 decompress inplace cd dic codec h2 us cs payload <> ROk r2).
+Proof. intros. split; [apply rd_data_page_refuses|apply rd_page_v2_refuses]. Qed.
+Print Assumptions C03_unsupported_refused.
 
 (* the specification decoder never returns values for the value encodings outside the model: it says
    "unsupported" (DELTA_LENGTH_BYTE_ARRAY 6, DELTA_BYTE_ARRAY 7, BYTE_STREAM_SPLIT 9) whatever the bytes *)
